@@ -161,6 +161,27 @@ def run(ctx):
     ctx.cov["rule"] = ("a case class is (codec, boundary class of every length parameter relative to the real limit - e.g. max-1 / max / max+1, "
                        "number of chunks and whether the last one is full, name length 254/255/256 -, base-domain shape, obfuscator kind x tag-length "
                        "class, exchange outcome); classes are counted by the drivers from what they executed; key pairs and random content do not add classes")
+    # ---- E: the encrypted exchange with several clients at once.  "Decoding an encoded value yields the original" must hold for the
+    # request the responder decodes while OTHER clients' requests arrive back to back (it decodes each datagram in its own goroutine):
+    # spec/DnsTunnel (NoCrossTalk: a client accepts only the answer to its own request) exhaustively, then three real requesters
+    # against the real responder, ungated and fault-free - every request must be decoded as itself and answered to its own sender.
+    tdir = ctx.spec_copy("DnsTunnel")
+    rt = ctx.tlc(tdir, "DnsTunnel.tla", "MC_DnsTunnel.cfg", timeout=900, workers=6)
+    ctx.require_design_ok(rt, "DnsTunnel (concurrent exchanges)")
+    rk = ctx.tlc(tdir, "DnsTunnel.tla", "MC_DnsTunnel_nokeycheck.cfg", timeout=300, count=False, workers=4)
+    if rk["inv"] != "NoCrossTalk":
+        raise vlib.InfraError("the DnsTunnel instance without the key check should violate NoCrossTalk, got %s" % rk["inv"])
+    sp = os.path.join(ctx.scratch, "tunnel_stress.ndjson")
+    rs = ctx.go_test(D + "responder", ["common/vcommon_test.go", "pkg_dnsregistrar_responder/dnstunnel_verif_test.go"], "responder",
+                     "^TestVerifDnsTunnelStress$", env={"VERIF_OUT": sp, "VERIF_ROUNDS": 40 if thorough else 8}, timeout=600)
+    srows = ctx.read_results(sp)
+    ssum = [x for x in srows if x.get("kind") == "summary"]
+    if not ssum:
+        raise vlib.InfraError("concurrent exchange driver did not finish:\n" + rs["out"][-2000:])
+    for x in srows:
+        if x.get("kind") == "prop":
+            ctx.violation("exchange:concurrent:%s" % x["prop"], "three requesters against the responder at once: %s" % x["detail"], x)
+    ctx.stage("E", **{k: v for k, v in ssum[0].items() if k != "kind"})
     ctx.assumptions += [
         "DNS names are always built through NewName / ParseName (a Name literal with a 64-byte label makes WriteName panic by design)",
         "cryptographic round trips (X25519+AES obfuscators, Noise-N) are decided by executing the real primitives on key pairs seeded from "
